@@ -75,6 +75,7 @@ def c05(repo, rep):
     with rep.keep("HIST"):
         M.transform_history_rule(repo, rep)
     C.r1(repo, rep, callers=T.SIMULATORS)
+    C.r1d(repo, rep, callers=T.SIMULATORS)
     C.r16(repo, rep, T.SIMULATORS)
     X.r16w(repo, rep, ["simulation"])
     X.truthy_rule(repo, rep, ["simulation"])
@@ -90,9 +91,12 @@ def c06(repo, rep):
     O.r2r3(repo, rep, ["analytic"])
     O.time_grid(repo, rep)
     O.conservation(repo, rep)
+    O.ic_guard(repo, rep)
     O.r4(repo, rep)
     O.degree_roles(repo, rep)
+    O.index_roles(repo, rep)
     analytic = [f.name for f in repo.public_functions("analytic")]
+    C.r1d(repo, rep, callers=analytic)
     C.r1(repo, rep, callers=analytic + ["_get_Nk_and_IC_as_arrays_", "_get_NkNl_and_IC_as_arrays_", "_count_edge_types_",
                                         "_initialize_node_status_"], floor_sites=60)
     C.r16(repo, rep, [n for n in analytic if n not in O.NOTE_ONLY])
@@ -152,6 +156,8 @@ def c11(repo, rep):
     H.proto_rule(repo, rep, ["fast_SIR", "fast_nonMarkov_SIR", "directed_percolate_network"])
     H.adapter_rule(repo, rep)
     M.r14(repo, rep)
+    with rep.keep("MARKOV"):
+        X.markov_helper(repo, rep)
     C.r1(repo, rep, callers=T.SIR_EVENT + T.PERCOLATION)
     with rep.keep("R9"):
         R.r9_event_driven(repo, rep, "fast_nonMarkov_SIR")
@@ -162,6 +168,7 @@ def c11(repo, rep):
 
 def c12(repo, rep):
     C.r1(repo, rep, callers=T.DISCRETE)
+    C.r1d(repo, rep, callers=T.DISCRETE)
     X.discrete_contacts(repo, rep)
     X.discrete_history_guard(repo, rep)
     with rep.keep("R9", "R9.C04"):
@@ -186,6 +193,7 @@ def c13(repo, rep):
 
 def c14(repo, rep):
     O.r6(repo, rep)
+    O.index_roles(repo, rep)
     X.identity_rule(repo, rep, ["analytic", "simulation"])
     O.degree_roles(repo, rep)
     analytic = [f.name for f in repo.public_functions("analytic")]
@@ -229,3 +237,14 @@ def c20(repo, rep):
 PROPS = {"C01": c01, "C02": c02, "C03": c03, "C04": c04, "C05": c05, "C06": c06, "C09": c09, "C10": c10,
          "C11": c11, "C12": c12, "C13": c13, "C14": c14, "C15": c15, "C16": c16, "C17": c17, "C18": c18,
          "C19": c19, "C20": c20}
+
+
+def _with_tmin(fn):
+    def wrapped(repo, rep):
+        fn(repo, rep)
+        M.tmin_relative_defaults(repo, rep)
+    return wrapped
+
+
+for _p in ("C02", "C03", "C04", "C09", "C10", "C13", "C15"):
+    PROPS[_p] = _with_tmin(PROPS[_p])
